@@ -98,6 +98,7 @@ def gen_case(rng, tier, g):
     return {'prop': PROP, 'stack': stack, 'tables': tables, 'steps': steps,
             'shape': shape, 'consumer': rng.choice(CONSUMERS),
             'config': draw_config(rng, 0.1, exclude=('sort_buffersize',)),
+            'wrap': rng.random() < 0.2,
             'knobs': {'sort_buffersize': rng.choice([None, None, 2])}}
 
 
@@ -162,7 +163,9 @@ def run_case(case):
             why = None
             try:
                 expected = solo_reference(e, stack, case['tables'],
-                                          tempdir=sb.path)
+                                          tempdir=sb.path,
+                                          wrap_sources=case.get('wrap',
+                                                                False))
             except Exception as ex:
                 why = type(ex).__name__
             if why is not None:
@@ -173,7 +176,8 @@ def run_case(case):
             tables = [dec_table(t) for t in case['tables']]
             snap_src = snapshot(tables)
             w, views = build(e, stack, None, mode='alias', tempdir=sb.path,
-                             tables=tables)
+                             tables=tables,
+                             wrap_sources=case.get('wrap', False))
             snap_args = snapshot(w.args)
             items = is_items(stack)
             canon = canon_cell if items else canon_row
